@@ -265,6 +265,8 @@ def _scan_build(node, env):
 def _tee_build(node, env, taps, path):
     _, join, branches = node
     built = [_pipeline_form(build(b, env, taps, path + (('b', j),)), path + (j,), allow_list=True) for j, b in enumerate(branches)]
+    if any(type(b) is list for b in built):
+        rs.ops.tee_map(*built, join=join)        # (the caller's lists serve a second operator: see build_node)
     return rs.ops.tee_map(*built, join=join)
 
 
@@ -444,19 +446,26 @@ def build_node(node, env=None, taps=None, path=()):
             tail = tap(tail) if isinstance(tail, list) else tail
             inner = ([head] if head is not None else []) + inner + ([tail] if tail is not None else [])
         inner = _pipeline_form(inner, path)
-        if name == 'group_by':
-            return rs.ops.group_by(fn(node[1], env), inner)
-        if name == 'roll':
-            return rs.data.roll(node[1], node[2], inner)
-        if name == 'split':
-            return rs.data.split(fn(node[1], env), inner)
-        cfg = node[1]
-        conv = (lambda v: None if v is None else _timedelta(seconds=v)) if cfg.get('time') == 'dt' else (lambda v: v)
-        return rs.data.time_split(
-            time_mapper=fn(cfg.get('time', 'id'), env),
-            active_timeout=conv(cfg.get('active')), inactive_timeout=conv(cfg.get('inactive')),
-            closing_mapper=fn(cfg['closing'], env) if cfg.get('closing') else None,
-            include_closing_item=cfg.get('include', True), pipeline=inner)
+
+        def make():
+            if name == 'group_by':
+                return rs.ops.group_by(fn(node[1], env), inner)
+            if name == 'roll':
+                return rs.data.roll(node[1], node[2], inner)
+            if name == 'split':
+                return rs.data.split(fn(node[1], env), inner)
+            cfg = node[1]
+            conv = (lambda v: None if v is None else _timedelta(seconds=v)) if cfg.get('time') == 'dt' else (lambda v: v)
+            return rs.data.time_split(
+                time_mapper=fn(cfg.get('time', 'id'), env),
+                active_timeout=conv(cfg.get('active')), inactive_timeout=conv(cfg.get('inactive')),
+                closing_mapper=fn(cfg['closing'], env) if cfg.get('closing') else None,
+                include_closing_item=cfg.get('include', True), pipeline=inner)
+        if type(inner) is list:
+            # a pipeline given as a list belongs to the caller, who may hand the same list to a second operator
+            # (the same per-window aggregation at two window sizes): the operator judged is that second one
+            make()
+        return make()
     return OPS[name].build(node, env)
 
 
@@ -466,7 +475,124 @@ def build(prog, env=None, taps=None, path=()):
     return [build_node(n, env, taps, path + (k,)) for k, n in enumerate(prog)]
 
 
-def run_mux(prog, items, env=None, taps=None, store_factory=None, snap=None, again=None):
+class Controlled:
+    """A hot source under harness control (a Subject that can be reused after a terminal event): push / complete /
+    error go to every subscription that has not been disposed.  Lets one observable be given a HISTORY -
+    subscriptions that are disposed mid-stream, that die of a source error, or whose consumer raises - before the
+    judged subscription.  A chain that stays subscribed after its subscriber disposed keeps being fed, as it would
+    be by any live source."""
+
+    def __init__(self):
+        self.observers = []
+
+        def on_subscribe(observer, scheduler=None):
+            from rx.disposable import Disposable
+            self.observers.append(observer)
+
+            def dispose():
+                if observer in self.observers:
+                    self.observers.remove(observer)
+            return Disposable(dispose)
+        self.observable = rx.create(on_subscribe)
+
+    @property
+    def observer(self):
+        return self.observers[-1] if self.observers else None
+
+    def push(self, x):
+        for o in list(self.observers):
+            o.on_next(x)
+
+    def complete(self):
+        obs, self.observers = list(self.observers), []
+        for o in obs:
+            o.on_completed()
+
+    def error(self, e):
+        obs, self.observers = list(self.observers), []
+        for o in obs:
+            o.on_error(e)
+
+
+class _ConsumerFailure(Exception):
+    pass
+
+
+def usable_prelude(prog, prelude):
+    """tee_map publishes its source (RxPY publish() / connect()): once that subject has seen a terminal event -
+    the source error of an aborted run - every later subscription only receives that event again.  A pipeline
+    holding a tee_map is therefore only given the aborted runs that end without a terminal event."""
+    if prelude and 'tee_map' in op_names(prog):
+        return [p for p in prelude if p[0] in ('dispose', 'peek')]
+    return prelude
+
+
+def play_prelude(obs, src, items, prelude):
+    """Aborted subscriptions of `obs` (built on the Controlled source `src`), in order:
+       ['dispose', k]        - k items are pushed, then the subscription is disposed
+       ['source_error', k]   - k items are pushed, then the source signals on_error
+       ['consumer_raise', j] - everything is pushed; the consumer's on_next raises at its j-th item
+       ['peek', j]           - take(j) placed after the pipeline (the usual "look at the first records")
+    Nothing is judged here; whatever these leave behind must not show in the judged subscription."""
+    import rx.operators as rxops
+    n_done = 0
+    for kind, k in prelude:
+        k = max(0, min(k, len(items)))
+        seen = [0]
+
+        def on_next(_x, kind=kind, k=k, seen=seen):
+            seen[0] += 1
+            if kind == 'consumer_raise' and seen[0] > k:
+                raise _ConsumerFailure('the consumer failed on item %d' % k)
+        target = obs.pipe(rxops.take(max(1, k))) if kind == 'peek' else obs
+        d = None
+        try:
+            d = target.subscribe(on_next=on_next, on_error=lambda e: None, on_completed=lambda: None)
+            feed = items if kind in ('consumer_raise', 'peek') else items[:k]
+            for x in feed:
+                src.push(copy.deepcopy(x))
+            if kind == 'source_error':
+                src.error(Boom('the source failed after %d items' % k))
+            elif kind == 'dispose':
+                pass
+            elif kind == 'peek':
+                pass            # (a peek that was not satisfied is disposed like any other: it never sees a completion)
+            elif kind == 'consumer_raise':
+                src.complete()
+        except Exception:          # noqa: BLE001 - the failure of an aborted run is not judged
+            pass
+        finally:
+            if d is not None:
+                try:
+                    d.dispose()
+                except Exception:  # noqa: BLE001
+                    pass
+        n_done += 1
+    return n_done
+
+
+def drive(obs, src, items, snap):
+    """The judged subscription on a Controlled source."""
+    try:
+        obs.subscribe(on_next=snap.on_next, on_error=snap.on_error, on_completed=snap.on_completed)
+        for x in items:
+            src.push(x)
+        src.complete()
+    except Exception as e:          # noqa: BLE001
+        if snap.err is None:
+            snap.err = e
+            snap.raised = True
+    return snap
+
+
+def clear_logs(taps):
+    for v in (taps or {}).values():
+        for log in v:
+            if isinstance(log, list):
+                del log[:]
+
+
+def run_mux(prog, items, env=None, taps=None, store_factory=None, snap=None, again=None, prelude=None):
     """items -> Snap, through with_store(...) on a plain source (one top-level key)."""
     from .common import Snap, subscribe
     ops_ = build(prog, env, taps)
@@ -474,6 +600,17 @@ def run_mux(prog, items, env=None, taps=None, store_factory=None, snap=None, aga
         w = rs.state.with_memory_store(ops_)
     else:
         w = rs.state.with_store(rs.state.StoreManager(store_factory=store_factory), ops_)
+    prelude = usable_prelude(prog, prelude)
+    if prelude:
+        # the same observable first lives through aborted subscriptions, then serves the judged one
+        src = Controlled()
+        obs = src.observable.pipe(w)
+        play_prelude(obs, src, items, prelude)
+        clear_logs(taps)
+        first = drive(obs, src, items, snap or Snap())
+        if again is not None:
+            drive(obs, src, items, again)
+        return first
     obs = rx.from_(items).pipe(w)
     first = subscribe(obs, snap or Snap())
     if again is not None:
@@ -489,15 +626,46 @@ def run_plain(prog, items, env=None, snap=None):
     return subscribe(rx.from_(items).pipe(*ops_) if ops_ else rx.from_(items), snap or Snap())
 
 
-def run_driven(prog, items, mode='mux', env=None):
+def run_obs(make, items, prelude=None, logs=(), snap=None):
+    """make(source) -> observable.  Without a history: subscribe make(rx.from_(items)).  With one: the observable
+    is built ONCE on a Controlled source, lives through the aborted subscriptions, the tap logs are emptied, and
+    the judged subscription follows."""
+    from .common import Snap, subscribe
+    if not prelude:
+        return subscribe(make(rx.from_(items)), snap or Snap())
+    src = Controlled()
+    obs = make(src.observable)
+    play_prelude(obs, src, items, prelude)
+    for log in logs:
+        del log[:]
+    return drive(obs, src, items, snap or Snap())
+
+
+def run_driven(prog, items, mode='mux', env=None, prelude=None):
     """Subject-driven run: the cursor holds the index of the item being pushed (len(items) while the
     source completes); the Snap records it for every output (snap.pos)."""
     from rx.subject import Subject
     from .common import Snap
     cursor = [None]
     snap = Snap(cursor)
-    subj = Subject()
     ops_ = build(prog, env)
+    prelude = usable_prelude(prog, prelude)
+    if prelude:
+        subj = Controlled()
+        obs = subj.observable.pipe(rs.state.with_memory_store(ops_)) if mode == 'mux' else (subj.observable.pipe(*ops_) if ops_ else subj.observable)
+        play_prelude(obs, subj, items, prelude)
+        try:
+            obs.subscribe(on_next=snap.on_next, on_error=snap.on_error, on_completed=snap.on_completed)
+            for j, x in enumerate(items):
+                cursor[0] = j
+                subj.push(x)
+            cursor[0] = len(items)
+            subj.complete()
+        except Exception as e:          # noqa: BLE001
+            if snap.err is None:
+                snap.err = e
+        return snap
+    subj = Subject()
     if mode == 'mux':
         obs = subj.pipe(rs.state.with_memory_store(ops_))
     else:
